@@ -85,3 +85,15 @@ add("C14", "exploration",
     SIM_NOTE,
     "deterministic simulation: durable-state histories (write by run i, read by run i+1) against a slot-template reference model",
     "DESIGN.md section 4, C14")
+
+add("C04", "exploration",
+    "Configuration / fault space of regex-assembly/toolchain.yaml (complete, partial, padded, empty, torn, wrong-typed value, other file via -f, absent, open failing with EACCES / ELOOP through the I/O seam, a directory in its place) x cmdline blocks; the generated regex is bounded on both sides by two reference languages built from the statement (positive samples must match, negative samples outside the upper language must not) and every failed configuration must behave exactly like the explicit empty configuration.",
+    SIM_NOTE + " Only the configuration / fault dimension is simulation proper; the word x variant dimension is generated-input checking (DESIGN.md says so).",
+    "deterministic simulation: configuration-state and I/O-fault exploration with a two-sided reference-language oracle",
+    "DESIGN.md section 4, C04")
+
+add("C20", "exploration",
+    "The whole self-update path (repository code, go-selfupdate, go-github, net/http above RoundTripper, archive handling, replacement of the executable) runs for real against a simulated GitHub: a seeded release catalogue rendered into canned routes plus fault sequences on individual requests (403, 404, 500, transport error, truncated body, bit flip). Safety invariant on the executable's bytes: a change is only ever the payload of a strictly newer, platform-matching asset whose bytes as received carry the digest recorded in that release's checksum file.",
+    SIM_NOTE + " GitHub and everything below http.RoundTripper are stubs.",
+    "deterministic simulation: simulated network (in-memory service model + per-request fault sequences) with a safety invariant on durable state",
+    "DESIGN.md section 4, C20")
